@@ -88,7 +88,7 @@ PROPS = {
                        "tied by correspondence only); crash points inside a single file operation are represented by (j, n) in the model "
                        "and sampled at step boundaries + log-tail cuts on the implementation; page-granular power loss is C12; damaged "
                        "logs are C13."),
-        "lean": ["Pdb.Props.C02", "Pdb.Props.C02Real", "Pdb.Props.C01b", "Pdb.Props.C02x", "Pdb.Proofs.Order"],
+        "lean": ["Pdb.Props.C02", "Pdb.Props.C02Real", "Pdb.Props.C01b", "Pdb.Props.C02x", "Pdb.Proofs.Order", "Pdb.Props.C02RealWal"],
         "harness": [{"cmd": "p1", "quick": 250, "thorough": 15000},
                     {"cmd": "c02x", "quick": 450, "thorough": 4000, "timeout": 7200}],
         "rule": P1_RULE,
@@ -144,7 +144,7 @@ PROPS = {
                        "43 root read twice, F44 background error stored during assembly) are reproduced by c08 with yield hooks and cannot be ex"
                        "pressed in the one-step model; order validate / bg_err / claim tied to the source by the T0 obligations commitChanges_va"
                        "lidate_before_claim, commitChanges_bgerr_before_claim."),
-        "lean": ["Pdb.Props.C08"],
+        "lean": ["Pdb.Props.C08", "Pdb.Proofs.Order"],
         "harness": [{"cmd": "c08", "quick": 60, "thorough": 3000}, {"cmd": "p1", "quick": 100, "thorough": 5000}],
         "rule": ("c08: 5 columns (plain, rc, btree, multitree rc, multitree append-only), 10..30 transactions of 1..5 valid operations, "
                  "half of them with one invalid operation inserted at a random position (first / middle / last measured), plus the "
@@ -327,7 +327,7 @@ PROPS = {
         "level_note": ("Trusted: Lean kernel; the directory abstraction (I/O errors, OS lock, non-UTF-8 names outside); what a successful "
                        "open+close does to the tables (log replay) is an abstract parameter of the frame theorems - that it preserves "
                        "content is checked by the oracle on crash images, and proved under C02/C03; harness generators."),
-        "lean": ["Pdb.Props.C17", "Pdb.Proofs.C17Findings"],
+        "lean": ["Pdb.Props.C17", "Pdb.Proofs.C17Findings", "Pdb.Proofs.Order"],
         "harness": [{"cmd": "c17", "quick": 300, "thorough": 6000, "max_search": 20000}],
         "rule": ("case kind = seed % 20: codec (10%): ALL 384 option combinations, each at a random position of a 1..4 column list (plus a 0- and "
                  "a 260-column list), random salt, version None / 4..8 / unsupported, written by write_metadata* and read by "
